@@ -271,3 +271,70 @@ def split_call(text):
     if cur or params:
         params.append(cur)
     return text[:i], params, text[j + 1:]
+
+
+# ------------------------------------------------------------------------------------------------
+# a decoded trace is a value: what it shows does not change when OTHER traces are decoded before it is rendered
+
+def late_render_section(rep, rng, tier, prop, names=None, name='late-render', k=3, mutate=None):
+    """For every decoder: k windows with different words are decoded FIRST (all trace objects alive at once), rendered
+    afterwards — in order, and in reverse order —, and each text must be the one the same window gives when it is decoded and
+    rendered alone (oracle on the real code alone).  A decoder that keeps what it shows in a place shared by its traces (a class
+    attribute, a default argument, one ctypes cell, a module-level buffer) shows the words of the latest window for all of them.
+    `mutate(rng, case, j)` lets a property vary the field it cares about (a flag word, the END record)."""
+    sec = rep.section(name)
+    names = all_handler_names() if names is None else list(names)
+    from . import mined
+    if tier == 'quick' and not mined.changed_files() and len(names) > 160:
+        names = rng.sample(names, 160)
+    sec['rule'] = ('%d decoders x %d windows with different words: decoded first (all traces alive), rendered afterwards in order '
+                   'and in reverse; every text must equal the text of the same window decoded and rendered alone (oracle on the '
+                   'real code alone)' % (len(names), k))
+    for n in names:
+        cases = []
+        for j in range(k):
+            c = make_case(rng, n)
+            if mutate:
+                c = mutate(rng, c, j) or c
+            cases.append(c)
+        alone = []
+        for c in cases:
+            try:
+                alone.append(str(trace_of(c)))
+            except Exception as e:      # noqa: BLE001
+                alone.append('raise ' + core.err_name(e))
+        if len(set(alone)) < 2:
+            continue
+        objs = []
+        for c in cases:
+            try:
+                objs.append(trace_of(c))
+            except Exception as e:      # noqa: BLE001
+                objs.append(e)
+        for order in (range(k), reversed(range(k))):
+            for j in order:
+                sec['cases'] += 1
+                o = objs[j]
+                try:
+                    late = 'raise ' + core.err_name(o) if isinstance(o, Exception) else str(o)
+                except Exception as e:      # noqa: BLE001
+                    late = 'raise ' + core.err_name(e)
+                if late == alone[j]:
+                    sec['distinct_nontrivial'] += 1
+                    continue
+                rep.add_failure('render:depends-on-other-traces:' + n,
+                                '%s: decoder %s, window %d of %d decoded together: rendered after the others it reads %r, alone %r'
+                                % (prop, n, j, k, late[:200], alone[j][:200]),
+                                {'section': name, 'decoder': n, 'cases': cases, 'index': j})
+                break
+            else:
+                continue
+            break
+
+
+def replay_late_render(rp):
+    cases, j = rp['cases'], rp['index']
+    alone = str(trace_of(cases[j]))
+    objs = [trace_of(c) for c in cases]
+    late = str(objs[j])
+    return late != alone, ['decoded and rendered alone          : ' + alone, 'decoded with %d others, rendered last: ' % (len(cases) - 1) + late]
